@@ -27,6 +27,7 @@ type VFConfig struct {
 	BodyBig       int64 // protocol: sets above this size may be refused when the flush buffer is large
 	FlushMax      int64
 	MaxReq        int
+	FlushInterval int // seconds: rate limit of the periodic (non-forced) flush; 0 = every call flushes
 	TimeoutMS     int // protocol: receive / process timeout (0 = one hour, so that it never fires)
 }
 
@@ -84,7 +85,7 @@ func VFApplyConfig(cfg VFConfig, home string) {
 	Conf.IndexIntervalSize = cfg.IndexInterval
 	Conf.MergeInterval = cfg.MergeInterval
 	Conf.NoMerged = cfg.NoMerged
-	Conf.FlushInterval = 0
+	Conf.FlushInterval = cfg.FlushInterval
 	Conf.FlushWake = 0
 	Conf.NotCompress = map[string]bool{"audio/wave": true, "audio/mpeg": true}
 	Conf.InitTree()
